@@ -87,10 +87,13 @@ pub fn write(spec: &ElfSpec) -> Vec<u8> {
             offsets[k] = phoff as u64;
             continue;
         }
-        out.resize(off as usize, 0);
+        // bytes of the file that belong to no segment are arbitrary: make them non-zero, so a
+        // loader that fills a bss tail from the file instead of zeros is seen
+        out.resize(off as usize, 0xEE);
         out.extend_from_slice(&s.file);
         offsets[k] = off;
     }
+    out.extend_from_slice(&[0xEE; 0x40]);
     // symbol table + string tables + section headers
     let mut shoff = 0usize;
     let mut shnum = 0usize;
